@@ -13,6 +13,9 @@
 -/
 import LyonVerif.Lemmas.PathViews
 import LyonVerif.Lemmas.PathMore
+import LyonVerif.Lemmas.PathCommands
+import LyonVerif.Model.Path.Polygon
+import LyonVerif.Model.Path.Commands
 
 set_option linter.unusedSectionVars false
 set_option linter.unusedVariables false
@@ -189,6 +192,240 @@ theorem path_buffer_get_attributes_storage (b : PathBuffer S) (n : Nat) (prog : 
       simp only [List.append_nil] at h1 h2
       subst hb
       simp [PathBuffer.get, hr, ← hidx, h1, h2, stored]
+
+
+/-! ### polygons -/
+
+/-- the builder program a polygon stands for -/
+def polyProg {π : Type} (pts : List π) (closed : Bool) : List (Call π Unit) :=
+  match pts with
+  | [] => []
+  | p :: r => Call.begin p () :: ((r.map fun q => Call.line q ()) ++ [Call.end_ closed])
+
+theorem poly_iterGo_spec {π : Type} (closed : Bool) (r : List π) (prev first : π) :
+    Poly.iterGo closed r (some prev) (some first)
+      = some (specFrom (some (first, prev)) ((r.map fun q => Call.line q ()) ++ [Call.end_ (A := Unit) closed])) := by
+  induction r generalizing prev with
+  | nil => simp [Poly.iterGo, specFrom]
+  | cons q r ih => simp [Poly.iterGo, specFrom, ih]
+
+/-- `Polygon::iter`, `Polygon::path_events` and `IdPolygon::iter` (one state machine in the
+code, one function in the model) yield the specification events of `begin p0, line p1 …,
+end(closed)`; nothing for the empty polygon. -/
+theorem polygon_iter_eq_spec {π : Type} (pts : List π) (closed : Bool) :
+    Poly.iter pts closed = some (specEvents (polyProg pts closed)) := by
+  cases pts with
+  | nil => simp [Poly.iter, Poly.iterGo, polyProg, specEvents, specFrom]
+  | cons p r => simp [Poly.iter, Poly.iterGo, polyProg, specEvents, specFrom, poly_iterGo_spec]
+
+theorem poly_iterGo_event {π : Type} (closed : Bool) (r pre : List π) (prev first : π)
+    (hne : pre ≠ []) (hlast : pre[pre.length - 1]? = some prev) (hfirst : pre[0]? = some first)
+    (evs : List (Event π)) (h : Poly.iterGo closed r (some prev) (some first) = some evs)
+    (j : Nat) (e : Event π) (he : evs[j]? = some e) :
+    Poly.idPolygonEvent (pre ++ r) closed (pre.length + j) = some e := by
+  have hpos : 0 < pre.length := List.length_pos_iff.mpr hne
+  induction r generalizing pre prev evs j with
+  | nil =>
+    simp [Poly.iterGo] at h
+    subst h
+    cases j with
+    | zero =>
+      simp at he
+      subst he
+      have h0 : pre.length ≠ 0 := by omega
+      have h1le : 1 ≤ pre.length := by omega
+      simp [Poly.idPolygonEvent, h0, Poly.idPolygonEvent.csub, h1le, hlast, hfirst]
+    | succ j => simp at he
+  | cons q r ih =>
+    simp only [Poly.iterGo] at h
+    cases hr : Poly.iterGo closed r (some q) (some first) with
+    | none => simp [hr] at h
+    | some evs' =>
+      simp [hr] at h
+      subst h
+      cases j with
+      | zero =>
+        simp at he
+        subst he
+        have h0 : pre.length ≠ 0 := by omega
+        have h1 : (pre ++ q :: r)[pre.length - 1]? = some prev := by
+          rw [List.getElem?_append_left (by omega)]; exact hlast
+        have h1le : 1 ≤ pre.length := by omega
+        simp [Poly.idPolygonEvent, h0, Poly.idPolygonEvent.csub, h1le, h1]
+      | succ j =>
+        simp at he
+        have := ih (pre ++ [q]) q (by simp) (by simp) (by
+          rw [List.getElem?_append_left (by omega)]; exact hfirst) evs' hr j he (by simp)
+        simpa [Nat.add_assoc, Nat.add_comm 1 j] using this
+
+/-- Random access agrees with iteration for `IdPolygon`: the `k`-th event of `iter` is
+`event(k)`. -/
+theorem idpolygon_event_eq_iter {π : Type} (pts : List π) (closed : Bool) (evs : List (Event π))
+    (h : Poly.iter pts closed = some evs) (k : Nat) (e : Event π) (he : evs[k]? = some e) :
+    Poly.idPolygonEvent pts closed k = some e := by
+  cases pts with
+  | nil => simp [Poly.iter, Poly.iterGo] at h; subst h; simp at he
+  | cons p r =>
+    simp only [Poly.iter, Poly.iterGo] at h
+    cases hr : Poly.iterGo closed r (some p) (some p) with
+    | none => simp [hr] at h
+    | some evs' =>
+      simp [hr] at h
+      subst h
+      cases k with
+      | zero => simp at he; subst he; simp [Poly.idPolygonEvent]
+      | succ k =>
+        simp at he
+        have := poly_iterGo_event closed r [p] p p (by simp) (by simp) (by simp) evs' hr k e he
+        simpa [Nat.add_comm 1 k] using this
+
+/-- `Polygon::event` is NOT `Polygon::iter` by random access: on a closed 4-gon it answers `End`
+at id 3 where `iter` yields the last `Line`, and at id 4 (where `iter` yields `End`) it indexes
+past the slice. -/
+theorem polygon_views_agree_witness :
+    let pts : List (Int × Int) := [(0, 0), (1, 0), (1, 1), (0, 1)]
+    (Poly.iter pts true).map (·[3]?) = some (some (Event.line (1, 1) (0, 1))) ∧
+    Poly.polygonEvent pts true 3 = some (Event.end_ (0, 1) (0, 0) true) ∧
+    (Poly.iter pts true).map (·[4]?) = some (some (Event.end_ (0, 1) (0, 0) true)) ∧
+    Poly.polygonEvent pts true 4 = none := by decide
+
+/-- `Polygon::id_iter` of the empty polygon yields `Begin` and no `End`, while `iter` yields
+nothing. -/
+theorem polygon_views_agree_witness_empty (closed : Bool) :
+    Poly.idIter 0 closed = some [Event.begin 0] ∧ Poly.iter ([] : List Nat) closed = some [] := by
+  cases closed <;> decide
+
+/-- `FromPolyline` over no points yields a lone `End` (not a well-formed sequence). -/
+theorem from_polyline_witness (closed : Bool) :
+    Poly.fromPolyline (0 : Int) closed [] = [Event.end_ 0 0 closed] ∧
+    ¬ WellFormed (Poly.fromPolyline (0 : Int) closed []) := by
+  cases closed <;> simp [Poly.fromPolyline, Poly.fromPolylineGo, WellFormed, wellFormedFrom]
+
+/-- What does hold for `Polygon::event` in the current code: away from the last two ids it is
+`IdPolygon::event` (which is `iter` by random access, `idpolygon_event_eq_iter`).
+Missing for the full statement `polygon_views_agree`: ids `len - 1` and `len` (finding
+C14-polygon-event-end-index), and the empty polygon's `id_iter` (C14-empty-polygon-id-iter). -/
+theorem polygon_views_agree_partial {π : Type} (pts : List π) (closed : Bool) (k : Nat)
+    (hk : k + 1 < pts.length) :
+    Poly.polygonEvent pts closed k = Poly.idPolygonEvent pts closed k := by
+  by_cases h0 : k = 0
+  · simp [Poly.polygonEvent, Poly.idPolygonEvent, h0]
+  · have h1 : k ≠ pts.length - 1 := by omega
+    have h2 : k ≠ pts.length := by omega
+    have h3 : 1 ≤ pts.length := by omega
+    simp [Poly.polygonEvent, Poly.idPolygonEvent, h0, h1, h2, h3, Poly.polygonEvent.csub,
+      Poly.idPolygonEvent.csub]
+
+/-- `FromPolyline` over at least one point yields the polygon's specification events. -/
+theorem from_polyline_eq_spec {π : Type} (zero p : π) (r : List π) (closed : Bool) :
+    Poly.fromPolyline zero closed (p :: r) = specEvents (polyProg (p :: r) closed) := by
+  have h : ∀ (r : List π) (cur first : π), Poly.fromPolylineGo closed r cur first false
+      = specFrom (some (first, cur)) ((r.map fun q => Call.line q ()) ++ [Call.end_ (A := Unit) closed]) := by
+    intro r
+    induction r with
+    | nil => intro cur first; simp [Poly.fromPolylineGo, specFrom]
+    | cons q r ih => intro cur first; simp [Poly.fromPolylineGo, specFrom, ih]
+  simp [Poly.fromPolyline, Poly.fromPolylineGo, polyProg, specEvents, specFrom, h]
+
+
+/-! ### command buffers -/
+
+/-- `PathCommands::iter` on a built command buffer yields the program's specification events
+(over ids); every `CmdIter::next().unwrap()` succeeds. -/
+theorem commands_iter_eq_spec {A : Type} (prog : List (Call Nat A)) (h : WellNested prog) :
+    Cmd.iter (Cmd.build prog).1 = some (specEvents prog) := by
+  simp only [Cmd.iter, Cmd.build, Cmd.run_emit, Cmd.Builder.new, List.nil_append]
+  exact Cmd.iterGo_emit prog none _ _ 0 0 h (by intro f0 c0 h; cases h)
+
+/-- `PathCommands::events(endpoints, control_points)` (and `PointEvents`) is the id-event
+sequence with every id looked up in the external stores — in particular it stays inside the
+stores exactly when all ids of the program are valid indices. -/
+theorem commands_events_eq_spec {A π : Type} (prog : List (Call Nat A)) (h : WellNested prog)
+    (eps cps : List π) :
+    Cmd.events (Cmd.build prog).1 eps cps
+      = resolveAll (fun i => eps[i]?) (fun i => cps[i]?) (specEvents prog) := by
+  simp only [Cmd.events, Cmd.build, Cmd.run_emit, Cmd.Builder.new, List.nil_append]
+  exact Cmd.eventsGo_emit eps cps prog none _ _ 0 0 h (by intro f0 c0 h; cases h)
+
+
+/-- Random access agrees with iteration for `PathCommands`: the event ids the builder hands
+back, each through `event(id)`, give exactly the events `iter` yields (all reads in bounds,
+including the back-pointer to the sub-path's first event used by End/Close). -/
+theorem commands_event_eq_iter {A : Type} (prog : List (Call Nat A)) (h : WellNested prog) :
+    (Cmd.build prog).2.mapM (Cmd.event (Cmd.build prog).1) = some (specEvents prog) := by
+  simp only [Cmd.build, Cmd.run_emit, Cmd.run_ids, Cmd.Builder.new, List.nil_append]
+  exact Cmd.mapM_event_emit _ prog none [] 0 (by simp) h (by intro f0 c0 h; cases h)
+
+
+/-! ### path-buffer witness, first endpoint, no out-of-bounds read -/
+
+/-- The path-buffer entry of the property does NOT read back with its attributes in the current
+code: one attribute, `M 0 0 [1] L 5 0 [2] L 5 5 [3] Z` — the entry claims 0 attributes and its
+`iter` yields the attribute slot `(1, 0)` as a point. -/
+theorem path_buffer_get_witness :
+    let prog : Prog Int := [.begin (0, 0) [1], .line (5, 0) [2], .line (5, 5) [3], .end_ true]
+    let entry := ((PathBuffer.new (S := Int)).addWithAttributes 1 prog).bind fun r => r.1.get 0
+    entry.map (·.numAttributes) = some 0 ∧
+    entry.bind PathData.iter ≠ some (specEvents prog) ∧
+    entry.bind PathData.iter = some
+      [Event.begin (0, 0), Event.line (0, 0) (1, 0), Event.line (1, 0) (5, 0),
+       Event.end_ (5, 0) (0, 0) true] := by decide
+
+/-- `first_endpoint` of a built path: `None` for the empty path, otherwise the first `begin`
+with its attributes. -/
+theorem first_endpoint_eq (n : Nat) (prog : Prog S) (hv : ValidProg n prog) :
+    (stored n prog).firstEndpoint =
+      some (match prog with
+            | Call.begin p a :: _ => some (p, a)
+            | _ => none) := by
+  cases prog with
+  | nil => simp [PathData.firstEndpoint, stored, emitPts]
+  | cons c r =>
+    obtain ⟨hn, ha⟩ := hv
+    cases c with
+    | begin p a =>
+      simp only [attrsOk, Bool.and_eq_true, beq_iff_eq] at ha
+      have h := endpointA_at (stored n (Call.begin p a :: r)) [] (emitPts p a r) p a
+        (by simp [stored, emitPts]) (by simpa [stored] using ha.1)
+      simp at h
+      simp [PathData.firstEndpoint, stored, emitPts, endpointPts] at h ⊢
+      exact h
+    | _ => simp [WellNested, wellNestedFrom] at hn
+
+/-- No out-of-bounds read: on a path produced by a builder from a valid program, every
+`List` index / pointer read / checked subtraction / assertion performed by `iter`,
+`iter_with_attributes`, `id_iter` + `path[id]` + `path.attributes(id)` and `first_endpoint`
+succeeds (the views return `some`).  (`reversed` and `last_endpoint`: tie and oracle only.) -/
+theorem no_oob (n : Nat) (prog : Prog S) (hv : ValidProg n prog) :
+    (buildWithAttributes n prog).isSome ∧
+    (stored n prog).iter.isSome ∧
+    (stored n prog).iterWithAttributes.isSome ∧
+    (resolveAll (stored n prog).point (stored n prog).point (stored n prog).idIter).isSome ∧
+    (resolveAll (stored n prog).endpointA (stored n prog).ctrlA (stored n prog).idIter).isSome ∧
+    (stored n prog).firstEndpoint.isSome := by
+  simp [builder_total n prog hv, iter_eq_spec n prog hv, with_attributes_eq n prog hv,
+    id_iter_resolves n prog hv, id_iter_resolves_attributes n prog hv, first_endpoint_eq n prog hv]
+
+/-! ### non-vacuity: the hypotheses are satisfiable by non-trivial programs -/
+
+/-- three attributes (odd: padded), a curve, a closed and a single-point sub-path -/
+def exampleProg : Prog Int :=
+  [.begin (0, 0) [1, 2, 3], .line (5, 0) [4, 5, 6], .quad (9, 9) (5, 5) [7, 8, 9], .end_ true,
+   .begin (7, 7) [0, 0, 1], .end_ false]
+
+example : ValidProg 3 exampleProg := ⟨by decide, by decide⟩
+example : (stored 3 exampleProg).iter = some (specEvents exampleProg) :=
+  iter_eq_spec 3 exampleProg ⟨by decide, by decide⟩
+example : (stored 3 exampleProg).points.length = 16 := by decide
+example : WellNested (polyProg [(0 : Int), 1, 2] true) := by decide
+example : WellNested ([.begin 0 (), .quad 1 2 (), .end_ true] : List (Call Nat Unit)) := by decide
+example : ∀ q ∈ [exampleProg, exampleProg], ValidProg 3 q := by
+  intro q hq; simp at hq; subst hq; exact ⟨by decide, by decide⟩
+example : ((0 : Nat) + 1 < [(0 : Int), 1, 2].length) := by decide
+/-- the reversed view of the model on the example (no theorem about `Reversed` yet: it is tied
+and oracle-checked only) -/
+example : ((stored 3 exampleProg).reversedIntoPath.bind PathData.reversedWithAttributes)
+    = (stored 3 exampleProg).iterWithAttributes := by decide
 
 
 end Lyon.C14
